@@ -132,6 +132,10 @@ Definition derive_all (codes : list (byte * list byte)) (compl : list (byte * by
 Definition derive_trans (all : list (byte * byte)) : list (N * N) :=
   map (fun kv => (Byte.to_N (fst kv), Byte.to_N (snd kv))) all.
 
+(* the regenerated CODES entry of a symbol, as the harness reads it from sugar.data *)
+Definition run_C05_codes (c : byte) : val :=
+  match lookupB c CODES with Some l => VS l | None => VNone end.
+
 (* harness entry point for the derivation on any CODES-like table (the real statements of seq.py are executed on the same table) *)
 Definition run_C05_derive (codes : list (byte * str)) (compl : list (byte * byte)) : val :=
   match derive_all codes compl with
